@@ -9,12 +9,38 @@ ID = 'C11'
 TITLE = 'Two-way references stay symmetric'
 PROPS = ['Props/C11']
 DISABLED = True
-RULE = 'under construction'
-TRUSTED = []
-ASSUMPTIONS = []
-TECHNIQUE = ''
-LEVEL_TEXT = ''
-LEVEL_NOTE = ''
+RULE = ('(L0) get_reverse_adjustments is regenerated from reverse_references.py on every run and proved equal to the hand '
+        'model (Proofs/TwoWay_gen.v); (L1) fresh documents with one two-way pair (Ref/RefList on either side, two tables '
+        'or a self-referential pair, a few prior updates): one BulkUpdateRecord/BulkAddRecord on either side (valid, '
+        'dangling, alt-text, repeated targets, repeated row ids, extra plain column) or one action writing both columns '
+        'of a self pair, engine result (both columns, both reverse indexes, or the exception) vs the model; (L1\') '
+        'AddReverseColumn and Ref<->RefList switches: the state handed to recalc_from_reverse_values and the result vs '
+        'the model; (L2) the same for every single-column action on a pair inside random histories; (S) histories '
+        '(edits of both sides, record removals, type switches, link creation/removal, undo; separate streams with '
+        'repeated row ids, both-sides actions, ReplaceTableData): after every successful bundle every pair is '
+        'symmetric on existing rows, a bundle rejected with the UNIQUE error leaves all reference cells unchanged. '
+        'A case is non-trivial when the action succeeds on a pair / the history has a pair')
+TRUSTED = ['harness/k4gen.py: fail-closed translator of get_reverse_adjustments (Python AST -> Gallina); its output is '
+           'used by the theorems and is also run against the engine in every (L1)/(L2) case',
+           'Model/TwoWay.v (prepare_new_values, _list_to_value, trimming, order of the doc actions, '
+           'recalc_from_reverse_values) is hand-written; compared with the running engine on every run (vm_compute)',
+           'column.convert is not modelled: the harness passes the converted values (it calls the real convert)',
+           'Model/RefIndex.v as for C10']
+ASSUMPTIONS = ['cell values are None, ints, lists of ints or strings',
+               'twoway_symmetric_step assumes pairwise distinct row ids in the action (false without: known finding) and '
+               'one column of the pair per action (false for both columns of a self pair: known finding)',
+               'pair_ok: exact reverse indexes (C10), row ids in 1..2^31-1, references only between existing rows']
+TECHNIQUE = ('Coq proof over an executable model whose core function is regenerated from source on every run + '
+             'differential correspondence with the running engine (vm_compute) + implementation oracles on histories')
+LEVEL_TEXT = ('Kernel-checked theorems, for all pair states, row lists and values: a successful update or add on either side '
+              'with distinct row ids keeps the pair symmetric (Ref or RefList on either side) and well formed; the UNIQUE '
+              'error is raised exactly when a Ref side would get two referrers, and before anything is modified; '
+              'recalc_from_reverse_values makes any pair symmetric; record removal keeps it symmetric. The three ways '
+              'the unchanged code escapes (repeated row ids, both columns of a self pair in one action, stale index '
+              'after ReplaceTableData) are proved as counterexamples / reported as known findings.')
+LEVEL_NOTE = ('Trusted: Coq kernel, the translator of get_reverse_adjustments, the hand-written glue model (validated '
+              'differentially on every run), column.convert as tabulated by the harness. Metadata cascades of '
+              'AddReverseColumn/ModifyColumn (reverseCol bookkeeping) are covered by the history oracle only.')
 
 logging.disable(logging.CRITICAL)
 
@@ -131,6 +157,38 @@ def build_pair(r):
   return e, ta_, ca, tb_, cb, same, ka, kb
 
 
+def both_case(r, e, t, ca, cb, ka, kb, rs):
+  """One BulkUpdateRecord writing both columns of a self-referential pair."""
+  k4, G = K(), GE()
+  rows = sorted(e.tables[t].row_ids)
+  va = [user_value(r, ka, rows) for _ in rs]
+  vb = [user_value(r, kb, rows) for _ in rs]
+  action = ['BulkUpdateRecord', t, rs, {ca: va, cb: vb}]
+  A, B = e.tables[t].get_column(ca), e.tables[t].get_column(cb)
+  try:
+    conv_a = [A.convert(G.objtypes.decode_object(copy.deepcopy(v))) for v in va]
+    conv_b = [B.convert(G.objtypes.decode_object(copy.deepcopy(v))) for v in vb]
+    before = pair_term(e, t, ca, t, cb)
+    hack = k4.hack_table([v for v in conv_a + conv_b if isinstance(v, str)], k4.any_rl_column())
+    ta_, tb_ = (core.coq_list([k4.enc_cell(v) for v in conv]) for conv in (conv_a, conv_b))
+  except k4.Unrepresentable:
+    return None
+  try:
+    G.apply(e, [copy.deepcopy(action)])
+    try:
+      expected = '(Ok %s)' % pair_term(e, t, ca, t, cb)
+    except k4.Unrepresentable:
+      return None
+    status = 'ok'
+  except Exception as ex:      # pylint: disable=broad-except
+    name = k4.enc_err(ex)
+    if name is None:
+      return None
+    expected, status = '(Err %s)' % name, name
+  term = '(update_both (hack_of %s) %s %s %s %s %s, %s)' % (hack, GRA, before, k4.natlist(rs), ta_, tb_, expected)
+  return term, '%s on a self-referential %s/%s pair' % (action, ka, kb), status == 'ok', 'both:' + status, action
+
+
 def pair_case(r):
   """One case: (coq term, description, nontrivial, histogram kind, replay dict) or None if not representable."""
   k4, G = K(), GE()
@@ -151,6 +209,8 @@ def pair_case(r):
     if r.random() < 0.12:
       rs = rs + [r.choice(rs)]
     ids = rs
+  if same and not add and r.random() < 0.4:
+    return both_case(r, e, ta, ca, cb, ka, kb, rs)
   vals = [user_value(r, kind, targets) for _ in rs]
   colvals = {c: vals}
   if r.random() < 0.25:
@@ -373,6 +433,9 @@ class Oracle(object):
   def before(self, e, bundle):
     tok = {'pairs': pairs_of(e), 'cells': ref_snapshot(e)}
     tok['asym'] = {p for p in tok['pairs'] if asymmetry(e, *p)}
+    if not self.visible_only:
+      k4 = K()
+      tok['stale'] = {(tid, cid) for tid, cid, c in k4.ref_columns(e) if k4.index_exact(c)}
     return tok
 
   def after(self, e, bundle, out, tok, history, exc):
@@ -408,13 +471,18 @@ class Oracle(object):
         kind = 'asymmetric_pair'
       self.issues.append((kind, 'after %r: %s' % (bundle, d)))
       return 'stop'
-    # a stale reverse index (ReplaceTableData, cf. C10) would make later adjustments wrong: same root cause
+    # monitor of the theorems' hypothesis (pair_ok: exact reverse indexes): the adjustments are computed from the
+    # reverse index, so a stale one makes later updates wrong.  After ReplaceTableData it IS stale (cf. C10).
     for tid, cid, c in ([] if self.visible_only else k4.ref_columns(e)):
-      if any(a[0] == 'ReplaceTableData' and a[1] == tid for a in bundle) and k4.index_exact(c):
-        if any((tid, cid) in ((p[0], p[1]), (p[2], p[3])) for p in pairs):
-          self.issues.append(('replace_table_data_breaks_two_way',
-                              'after %r the reverse index of the two-way column %s.%s is stale' % (bundle, tid, cid)))
-          return 'stop'
+      if not any((tid, cid) in ((p[0], p[1]), (p[2], p[3])) for p in pairs):
+        continue
+      d = k4.index_exact(c)
+      if d and (tid, cid) not in tok.setdefault('stale', set()):
+        replaced = any(a[0] == 'ReplaceTableData' and a[1] == tid for a in bundle)
+        self.issues.append(('replace_table_data_breaks_two_way' if replaced else 'stale_index_on_pair',
+                            'after %r the reverse index of the two-way column %s.%s is not the reverse of its cells: %s'
+                            % (bundle, tid, cid, d)))
+        return 'stop'
     return None
 
 
